@@ -4,7 +4,7 @@
 
 use std::cmp::Ordering;
 
-#[derive(Clone, Debug, PartialEq, Eq)]
+#[derive(Clone, Debug, PartialEq, Eq, Hash)]
 pub struct BigU(pub Vec<u32>); // little endian, no trailing zero limbs
 
 impl BigU {
@@ -190,7 +190,7 @@ impl BigU {
 }
 
 /// exact dyadic rational: (-1)^neg * mant * 2^exp
-#[derive(Clone, Debug, PartialEq, Eq)]
+#[derive(Clone, Debug, PartialEq, Eq, Hash)]
 pub struct Dy {
     pub neg: bool,
     pub mant: BigU,
